@@ -60,7 +60,7 @@ EXTRA_NOTE = {
     "C01": "Symbolic: int/str/float/bool leaves, stub payloads, container lengths, model field values. Enumerated natively and labelled: pooled bytes/Decimal/Fraction/complex/timedelta/datetime/Pattern values (C code). K-td proves the timedelta pair for every microsecond count up to 2**51 (quick) / 0.99986 * 2**52 (thorough) under the standard rounding model. Known findings: timedelta of 2**33 s or more (float seconds), re.Pattern flags, extras mirrored into nested crowns.",
     "C02": "Symbolic: atoms, stub outcomes, root/inner node kinds. Reference oracles written from docs/loading-and-dumping/specific-types-behavior.rst.",
     "C03": "Programs (model x name_mapping recipe) are enumerated: 37 members, 26 in quick; per member the input is symbolic (presence bits, stub codes, unknown keys, wrong node kinds). The expected layout of each member is stated by construction. Known finding: omit_default with non-identity dumpers.",
-    "C04": "Includes 15 K-exc kernels (exception edges over the loaders' ASTs, datum of every kind incl. all float bit patterns and unbounded ints), every builtin scalar / IP / path / IO type, enum and flag loaders, non-string keys against every extra policy. Labelled native enumerations (no symbolic dimension): stdlib numeric-tower pool x 53 types, unrenderable trail keys. Known finding: Set[Any] with unhashable elements.",
+    "C04": "Includes 15 K-exc kernels (exception edges over the loaders' ASTs, datum of every kind incl. all float bit patterns and unbounded ints), every builtin scalar / IP / path / IO type, enum and flag loaders, non-string keys against every extra policy. Labelled native enumerations (no symbolic dimension): stdlib numeric-tower pool x 53 types, unrenderable trail keys. Known findings: Set[Any] with unhashable elements; class objects with __class_getitem__ as model data.",
     "C05": "Trails are compared exactly (position ++ child trail) for every subset of failing children of <=3 siblings; nesting depth by induction over stub children.",
     "C06": "Known findings: tuple loader input_value copy and one-shot iterators (carved out as preconditions).",
     "C09": "Recipes are symbolic selector tuples (inductive step over the combiner state covers recipes of any length under the stated invariant); end-to-end recipes of length <=2 are enumerated natively, the datum is a symbolic int.",
@@ -68,7 +68,7 @@ EXTRA_NOTE = {
     "C11": "Histories (<=2 calls over a 43-type pool) are enumerated natively; the datum is symbolic. Thread schedules are C12 (not applicable).",
     "C13": "Besides the hand-written programs, a generated family of 317 flat + 31 nested + 378 cross-kind converter programs (recipe tokens in every order, decoys, extra parameters, refused programs) is compared with a reference of the linking rules; programs are enumerated natively, values are symbolic.",
     "C14": "The acceptance relation over the 40-type pool is a labelled native enumeration; soundness of every accepted pair is decided on symbolic conforming values.",
-    "C15": "Structural congruence (39 groups of spellings, 8-value literal pool) and predicate equivalence of spellings are labelled native enumerations: normalize_type cannot run under CrossHair (proxy intolerance). Behavioural equivalence of loaders is symbolic.",
+    "C15": "Structural congruence (39 groups of spellings, 8-value literal pool) and predicate equivalence of spellings are labelled native enumerations: normalize_type cannot run under CrossHair (proxy intolerance); plus a seeded GENERATED family of random type terms in two random spellings each (1500 quick / 6000 thorough). Behavioural equivalence of loaders is symbolic.",
     "C16": "36 hierarchy cases (dataclass, attrs, NamedTuple, TypedDict, pydantic; PEP 604 unions) + 6 PEP 695 alias cases; pydantic cases take selector-built concrete payloads. Not claimed: a pydantic child re-using its parent's own TypeVar (documented pydantic limitation).",
     "C17": "pydantic / SQLAlchemy receive realised pooled data (compiled validators reject symbolic proxies); pure kinds are symbolic over the kind pattern.",
     "C19": "Reduced scope (DESIGN.md 5/C19): strings that end up in generated source cannot stay symbolic across compile(); hostile keys/ids/names are enumerated as programs, data is symbolic; two z3 kernels.",
